@@ -164,7 +164,7 @@ fn steps_json(steps: &[Step]) -> Json {
             .iter()
             .map(|s| {
                 jobj! {
-                    "op" => match &s.op { Op::Emit(m) => format!("emit({:?}, {} bytes)", clip_bytes(m, 40), m.len()), Op::Flush => "flush".to_string(), Op::Drop => "drop".to_string() },
+                    "op" => match &s.op { Op::Emit(m) => format!("emit({:?}, {} bytes)", clip_bytes(m, 40), m.len()), Op::Flush => "flush".to_string(), Op::Drop => "drop".to_string(), Op::Query => "stats".to_string() },
                     "attempts" => Json::Arr(s.attempts.iter().map(|a| Json::Str(format!("{:?} -> {:?}", a.bytes.as_ref().map(|b| clip_bytes(b, 60)), a.out))).collect()),
                     "result" => format!("{:?}", s.res),
                 }
@@ -259,6 +259,7 @@ fn main() {
         match mode.as_str() {
             "enum" => mode_enum(&mut j),
             "random" => mode_random(&mut j),
+            "random-big" => mode_random_big(&mut j),
             "spy" => mode_spy(&mut j),
             "delegate" => mode_delegate(&mut j),
             "one" => mode_one(&mut j),
@@ -487,6 +488,50 @@ fn mode_random(j: &mut Judge) {
     }
 }
 
+/// Large capacities (around and above std's default BufWriter size 8192 and above 64 KiB): many short metrics until
+/// the buffer has wrapped at least once, and single metrics just below the capacity.
+fn mode_random_big(j: &mut Judge) {
+    let seed = j.args.u64("seed", 1);
+    let shard = j.args.u64("shard", 0);
+    let cases = j.args.u64("cases", 20);
+    let faults = j.args.str("faults", "none") != "none";
+    let only = j.args.get("case-seed").map(|s| s.parse::<u64>().unwrap());
+    for i in 0..cases {
+        let cs = only.unwrap_or_else(|| mix(&[seed, 0xB16, shard, i]));
+        let mut r = Rng::new(cs);
+        let cap = *r.pick(&[8191usize, 8192, 8193, 9000, 16384, 65535, 65536, 65537, 70000, 100000, 200000]);
+        let term = *r.pick(&TERMS);
+        let mut ops = Vec::new();
+        let mut total = 0usize;
+        let target = cap + cap / 2 + r.range(0, 5000) as usize;
+        let short_max = *r.pick(&[8usize, 16, 40, 63, 64, 200]);
+        let mut k = 0usize;
+        while total < target && ops.len() < 60000 {
+            if r.chance(1, 400) {
+                ops.push(POp::Flush);
+            } else {
+                let len = if r.chance(1, 300) {
+                    // one big metric: at a power-of-two boundary or just below the capacity
+                    let hi = cap.saturating_sub(term.len());
+                    *r.pick(&[8191usize, 8192, 8193, 65535, 65536, 65537, hi.saturating_sub(1), hi, hi / 2]).min(&(cap + 10))
+                } else {
+                    r.range(0, short_max as u64) as usize
+                };
+                total += len + term.len();
+                ops.push(POp::Emit(unique_metric(k, len)));
+            }
+            k += 1;
+        }
+        let random = if faults { Some((r.fork(), *r.pick(&[0u64, 5, 50]), 0u64)) } else { None };
+        let rr = run_w1(cap, term, &ops, &[], random, 0);
+        j.judge(cap, term, &rr.steps, vec![("mode", "random-big".into()), ("case-seed", cs.to_string()), ("cases", "1".into())], "W1-big");
+        j.rep.obs("big_capacity_histories", 1);
+        if only.is_some() || j.rep.violation_count >= 12 {
+            break;
+        }
+    }
+}
+
 // ------------------------------------------------------------------------------------------------
 // W2: BufferedSpyMetricSink observed at its channel; a bounded channel left full is the fault injector
 // ------------------------------------------------------------------------------------------------
@@ -537,7 +582,10 @@ fn mode_spy(j: &mut Judge) {
                 }
             }
             let before = rx.len();
-            let (op, res) = if r.chance(1, 8) {
+            let (op, res) = if r.chance(1, 12) {
+                let _ = panics::guard(|| sink.stats());
+                (Op::Query, Res::OkUnit)
+            } else if r.chance(1, 8) {
                 fill_hint = 0;
                 (Op::Flush, io_res_flush(panics::guard(|| sink.flush())))
             } else {
@@ -638,7 +686,19 @@ fn mode_delegate(j: &mut Judge) {
         let (rx, spy) = if default_cap { BufferedSpyMetricSink::new() } else { BufferedSpyMetricSink::with_capacity(None, Some(cap)) };
         let done = Arc::new(AtomicU64::new(0));
         let counting = Counting { inner: spy, done: done.clone() };
-        let client = if through_queue { StatsdClient::from_sink("", QueuingMetricSink::from(counting)) } else { StatsdClient::from_sink("", counting) };
+        // every way of building the queuing wrapper must delegate flush (and must not lose it behind an error handler)
+        let qvariant = r.below(4);
+        let client = if through_queue {
+            let q = match qvariant {
+                0 => QueuingMetricSink::from(counting),
+                1 => QueuingMetricSink::with_capacity(counting, 4096),
+                2 => QueuingMetricSink::builder().with_error_handler(|_e| {}).build(counting),
+                _ => QueuingMetricSink::builder().with_capacity(4096).with_error_handler(|_e| {}).build(counting),
+            };
+            StatsdClient::from_sink("", q)
+        } else {
+            StatsdClient::from_sink("", counting)
+        };
         let nops = r.range(3, 40) as usize;
         let mut steps = Vec::new();
         let mut sent = 0u64;
@@ -723,8 +783,8 @@ fn mode_delegate(j: &mut Judge) {
         }
         steps.push(Step { op: Op::Drop, attempts, res: Res::Dropped });
         j.judge(cap, "\n", &steps, vec![("case-seed", cs.to_string()), ("cases", "1".into())], match (through_queue, default_cap) {
-            (true, true) => "W5-queue-default-capacity",
-            (true, false) => "W5-queue",
+            (true, true) => ["W5-queue-default-capacity", "W5-queue(cap)-default-capacity", "W5-queue(handler)-default-capacity", "W5-queue(cap+handler)-default-capacity"][qvariant as usize],
+            (true, false) => ["W5-queue", "W5-queue(cap)", "W5-queue(handler)", "W5-queue(cap+handler)"][qvariant as usize],
             (false, true) => "W5-client-default-capacity",
             (false, false) => "W5-client",
         });
